@@ -72,6 +72,63 @@ def observe(impl, op, flags, gm, dtype, rng):
     return obs, ts, outs
 
 
+def two_pass(impl, op, rng, variant):
+    """Two backward passes over graphs sharing the op's result h (variant: plain | retain_grad | retain_grads context |
+    same upstream gradient object reused).  Expected leaf gradients = sum of the two single-pass gradients computed on
+    fresh graphs.  Returns None or a description of the disagreement."""
+    from lib import opcatalog
+    import random
+    np, sg = impl.np, impl.synapgrad
+    impl.reset_modes()
+    datas = [opcatalog.make_operand(impl, rng, s, np.float64) for s in op.operands]
+
+    def leaves():
+        return [sg.Tensor(d.copy(), requires_grad=bool(s[2])) for s, d in zip(op.operands, datas)]
+
+    def head(ts):
+        out = op.call(ts)
+        return (list(out) if op.multi else [out])[0]
+    ts = leaves()
+    h = head(ts)
+    if not h.requires_grad:
+        return None
+    r2 = random.Random(7)
+    a = np.array([r2.uniform(0.5, 2.0) for _ in range(h.data.size)]).reshape(h.shape)
+    b = np.array([r2.uniform(-2.0, -0.5) for _ in range(h.data.size)]).reshape(h.shape)
+
+    def single(coef):
+        t2 = leaves()
+        (head(t2) * sg.Tensor(coef.copy())).sum().backward()
+        return [None if t._grad is None else t._grad.copy() for t in t2]
+    g1, g2 = single(a), single(b)
+    if variant == "retain_grad":
+        h.retain_grad()
+    if variant == "retain_ctx":
+        with sg.retain_grads():
+            (h * sg.Tensor(a.copy())).sum().backward()
+    elif variant == "direct_same_seed":
+        seed = sg.Tensor(a.copy())
+        h.backward(seed)
+        k = h * sg.Tensor(np.ones_like(a))
+        k.backward(seed)                     # the caller reuses its gradient tensor
+        if not np.array_equal(seed.data, a):
+            return "the caller's upstream gradient tensor was modified (%s -> %s)" % (a.ravel()[:3].tolist(), seed.data.ravel()[:3].tolist())
+        g2 = g1
+    else:
+        (h * sg.Tensor(a.copy())).sum().backward()
+    if variant != "direct_same_seed":
+        (h * sg.Tensor(b.copy())).sum().backward()
+    for i, (t, x1, x2) in enumerate(zip(ts, g1, g2)):
+        if x1 is None:
+            continue
+        want = x1 + x2
+        if t._grad is None or not np.allclose(t._grad, want, rtol=1e-9, atol=1e-10):
+            return "operand %d after two backward passes through a shared %s result: .grad %s, expected the sum of the two passes %s" % (
+                i, variant, None if t._grad is None else t._grad.ravel()[:4].tolist(), want.ravel()[:4].tolist())
+    impl.reset_modes()
+    return None
+
+
 def run_part(ctx):
     from lib import impl, opcatalog
     np = impl.np
@@ -144,6 +201,23 @@ def run_part(ctx):
                         ctx.witness(op.wrapper, "wrapper-contract", {"op": op.name, "requires_grad_flags": list(flags), "grad_mode": gm, "dtype": str(np.dtype(dtype))},
                                     "result requires grad iff mode and any operand; grad_fn iff requires; children iff requires; every flagged operand accumulates its gradient",
                                     {"problems": problems})
+    # multi-pass scenarios (state kept between backward calls: retained / former-root buffers, reused upstream gradients)
+    import random as _random
+    for op in ops:
+        if op.name.startswith("batch_norm") or op.note == "composite":
+            continue
+        for variant in ("plain", "retain_grad", "retain_ctx", "direct_same_seed"):
+            cases += 1
+            distinct.add((op.name, variant))
+            try:
+                v = two_pass(impl, op, _random.Random(ctx.seed), variant)
+            except Exception as ex:
+                v = "raised %r" % (ex,)
+            if v:
+                mism.append({"op": op.name, "two_pass": variant, "problem": v})
+                ctx.witness(op.wrapper, "two-pass/" + variant, {"op": op.name, "variant": variant},
+                            "leaf gradients after two backward passes through a shared result = sum of the two single-pass gradients; the caller's gradient tensor is not modified",
+                            {"problem": v})
     missing = [op.wrapper for op in ops if op.wrapper not in by_name] if summaries else []
     uncovered = [n for n in by_name if n not in set(op.wrapper for op in ops)]
     if missing:
